@@ -77,6 +77,50 @@ template <class L> class LabeledFamily : public IAlgoFamily {
     }
 
   private:
+    // C09: "copy construction and assignment produce independent equal graphs" - also by move,
+    // onto a non-empty target, and onto the object itself
+    template <class G> bool copiesOk(const G &g, CaseResult &r) {
+        const json want = encOf(g);
+        G c1(g);
+        G c2(g.getSize() + 1);
+        if (g.getSize() > 0)
+            c2.addEdge(0, 0);
+        c2 = g;
+        G tmp1(g), tmp2(g);
+        G c3(std::move(tmp1));
+        G c4(1);
+        c4 = std::move(tmp2);
+        G c5(g);
+        G &alias = c5;
+        c5 = alias;
+        const char *names[] = {"copy construction", "copy assignment onto a non-empty graph", "move construction",
+                               "move assignment", "self-assignment"};
+        const G *all[] = {&c1, &c2, &c3, &c4, &c5};
+        for (int k = 0; k < 5; ++k)
+            if (encOf(*all[k]) != want) {
+                r.fail(std::string(names[k]) + " does not give an equal graph: " + diffNote(want, encOf(*all[k])));
+                return false;
+            }
+        c1.clearEdges();
+        c2.resize(c2.getSize() + 1);
+        if (encOf(g) != want || encOf(c3) != want) {
+            r.fail("changing a copy changed its source (copies are not independent)");
+            return false;
+        }
+        return true;
+    }
+    // the same value with label entries for pairs that are NOT edges (setEdgeLabel(..., force=true),
+    // documented): the constructions are defined over the edges, such entries must not matter
+    template <class G> G withOrphans(const G &g) {
+        G h(g);
+        if constexpr (!nolabel)
+            for (VertexIndex i = 0; i < h.getSize(); ++i)
+                for (VertexIndex j = 0; j < h.getSize(); ++j)
+                    if (!h.hasEdge(i, j))
+                        h.setEdgeLabel(i, j, Codec<L>::enc(2), true);
+        return h;
+    }
+
     void reverse(const json &c, unsigned order, CaseResult &r) {
         const DG g = buildFromEnc<DG>(c.at("g"), order);
         if (!inputAsSpecified(g, c.at("g"), r))
@@ -85,6 +129,11 @@ template <class L> class LabeledFamily : public IAlgoFamily {
         DG rev = g.getReversedGraph();
         if (encOf(rev) != c.at("out"))
             return r.fail("getReversedGraph: " + diffNote(c.at("out"), encOf(rev)));
+        if (!copiesOk(g, r) || !copiesOk(rev, r))
+            return;
+        if (order && !nolabel && encOf(withOrphans(g).getReversedGraph()) != c.at("out"))
+            return r.fail("getReversedGraph of the same graph carrying label entries for non-edges: " +
+                          diffNote(c.at("out"), encOf(withOrphans(g).getReversedGraph())));
         DG back = rev.getReversedGraph();
         if (!(back == g) || back != g || encOf(back) != encOf(g))
             return r.fail("reversing twice does not give an equal graph");
@@ -100,7 +149,12 @@ template <class L> class LabeledFamily : public IAlgoFamily {
             return r.fail("getDirectedGraph: " + diffNote(c.at("out"), encOf(d)));
         UG u2(d);
         if (!(u2 == u) || u2 != u || encOf(u2) != encOf(u))
-            r.fail("undirected -> directed -> undirected is not the identity");
+            return r.fail("undirected -> directed -> undirected is not the identity");
+        if (!copiesOk(u, r))
+            return;
+        if (order && !nolabel && encOf(withOrphans(u).getDirectedGraph()) != c.at("out"))
+            r.fail("getDirectedGraph of the same graph carrying label entries for non-edges: " +
+                   diffNote(c.at("out"), encOf(withOrphans(u).getDirectedGraph())));
     }
     void toUndirected(const json &c, unsigned order, CaseResult &r) {
         const DG d = buildFromEnc<DG>(c.at("g"), order);
@@ -108,7 +162,14 @@ template <class L> class LabeledFamily : public IAlgoFamily {
             return;
         UG u(d);
         if (encOf(u) != c.at("out"))
-            r.fail("LabeledUndirectedGraph(directed): " + diffNote(c.at("out"), encOf(u)));
+            return r.fail("LabeledUndirectedGraph(directed): " + diffNote(c.at("out"), encOf(u)));
+        if (order && !nolabel) {
+            UG u3(withOrphans(d));
+            // (which of two joined labels survives is not specified: compare only when it cannot differ)
+            if (encOf(u3).at("adj") != c.at("out").at("adj") || encOf(u3).at("en") != c.at("out").at("en"))
+                r.fail("LabeledUndirectedGraph(directed) of the same graph carrying label entries for non-edges: " +
+                       diffNote(c.at("out"), encOf(u3)));
+        }
     }
 
     // C09 is relative: "a graph with 1+largest-index vertices (none for an empty container) equal to
